@@ -245,6 +245,9 @@ def _dc_strategy(tier: str):
             "dev_uuid": draw(st.binary(min_size=16, max_size=16)), "uuid2": draw(st.binary(min_size=16, max_size=16)),
             "ab2": draw(st.integers(0, 0xFFFFFFFF)), "revocation": draw(_U32), "pinned": draw(_U32), "default": draw(_U32),
             "dac_vu": draw(_U32), "flip": draw(st.integers(0, 1 << 20)), "flip_field": draw(st.sampled_from(_FLIP_FIELDS)),
+            # EdgeLock parts: the challenge's protocol version is not compared with the credential's (validate_against_dc), so the
+            # device may send another one; the response still follows the credential
+            "dac_ver": draw(st.sampled_from([None, None, [1, 0], [1, 1], [2, 0], [2, 1], [2, 2]])),
             "dar_path": draw(st.sampled_from(["create", "config"])),
             "dar_family_given": draw(st.booleans()), "dar_signer": draw(st.sampled_from(["key", "key", "sp"])), "neg": draw(st.sampled_from(["uuid", "beacon", "dc", "chal"])),
         }
@@ -449,9 +452,13 @@ def run_dc(case, o: Oracle) -> None:
     # ---- challenge as the device sends it
     dev_uuid = uuid if any(uuid) else bytes(case["dev_uuid"])
     chal = bytes(case["chal"])
-    hl = _dac_hash_len(info, major, minor)
+    dmajor, dminor = major, minor
+    if info["ele"] and case.get("dac_ver"):
+        dmajor, dminor = case["dac_ver"]
+        o.label("dac_version_differs" if (dmajor, dminor) != (major, minor) else "dac_version_same", "dac_major_differs" if dmajor != major else "dac_major_same")
+    hl = _dac_hash_len(info, dmajor, dminor)
     dac_hash = want_hash[:hl].ljust(hl, b"\0")
-    v = (minor, major) if info["swapped"] else (major, minor)
+    v = (dminor, dmajor) if info["swapped"] else (dmajor, dminor)
     dac_bytes = L.build_dac(v[0], v[1], info["socc"], dev_uuid, int(case["revocation"]), dac_hash, int(case["pinned"]), int(case["default"]),
                             int(case["dac_vu"]), chal)
     dac = None
@@ -459,7 +466,7 @@ def run_dc(case, o: Oracle) -> None:
         dac = DebugAuthenticationChallenge.parse(dac_bytes)
         got = (dac.version.major, dac.version.minor, dac.socc, dac.uuid, dac.rotid_rkh_revocation, dac.rotid_rkth_hash, dac.cc_soc_pinned,
                dac.cc_soc_default, dac.cc_vu, dac.challenge)
-        o.eq("dac", "fields", got, (major, minor, info["socc"], dev_uuid, int(case["revocation"]), dac_hash, int(case["pinned"]),
+        o.eq("dac", "fields", got, (dmajor, dminor, info["socc"], dev_uuid, int(case["revocation"]), dac_hash, int(case["pinned"]),
                                     int(case["default"]), int(case["dac_vu"]), chal))
     if dac is None:
         return
